@@ -78,7 +78,39 @@ def impl_holds(pt):
     return True, ""
 
 
+# Letters outside ASCII, including ones whose lower/upper/case-folded form has a different length (sharp s, ligatures,
+# dotted capital I, n-apostrophe, j-caron), ones that fold to an ASCII letter (long s, Kelvin sign), other scripts, and
+# one outside the BMP.  The Coq model is ASCII-only, so prose over this alphabet is judged by a metamorphic relation.
+NON_ASCII_LETTERS = ("\u00df\ufb01\ufb00\ufb03\u0130\u0149\u01f0\u0390\u017f\u212a\u00e9\u00fc\u00f1\u00f8\u00e7\u00c5\u00d6"
+                     "\u03a9\u03bb\u03c2\u044f\u0416\u0131\u01c5\u1e9e\U0001d4b3\u4e2d")
+
+
+def substitute_prose(rng, d, rate=None):
+    """replace letters of the prose d (never blanks, digits or punctuation) char-for-char by non-ASCII letters; None when
+    d has no letter"""
+    idx = [i for i, c in enumerate(d) if c.isascii() and c.isalpha()]
+    if not idx:
+        return None
+    rate = rate if rate is not None else rng.choice([0.05, 0.2, 0.5, 1.0])
+    chosen = [i for i in idx if rng.random() < rate] or [rng.choice(idx)]
+    out = list(d)
+    for i in chosen:
+        out[i] = rng.choice(NON_ASCII_LETTERS)
+    return "".join(out)
+
+
+def substituted_holds(pt):
+    """metamorphic form of C17 at a point whose prose was substituted (pt["d"]) from ASCII prose (pt["d_ascii"]) on which
+    the property holds: the characters of the prose outside the announcement and outside the value are not looked at,
+    so the substituted point must behave as the image of the ASCII one: same sentence written after the prose, same
+    default (value and type) extracted, line untouched with emit_default_doc=True, removal returns the substituted prose"""
+    ok, what = impl_holds({k: pt[k] for k in ("a", "d", "v", "t")})
+    return ok, (what and "prose %r substituted char-for-char from %r: %s" % (pt["d"], pt["d_ascii"], what))
+
+
 def check_case(case):
+    if "d_ascii" in case:
+        return substituted_holds(case)
     if "a" in case:
         return impl_holds(case)
     return True, ""
@@ -93,6 +125,7 @@ def oracle(rng, tier):
     classes, mholds = outs[:len(pts)], outs[len(pts):]
     failures, hist, seen = [], collections.Counter(), set()
     disagree = []
+    n_sub = 0
     for p, c, mh in zip(pts, classes, mholds):
         ce = loads(c)
         if ce == "out-of-domain":
@@ -111,6 +144,16 @@ def oracle(rng, tier):
             disagree.append({"case": p, "model_holds": mh, "impl_holds": ok, "what": what, "class": cls})
         if not ok:
             failures.append({"case": p, "what": what, "class": cls})
+        elif cls is None and rng.random() < 0.5:
+            # (ii') the same point with letters of the prose replaced by non-ASCII letters (outside the model's alphabet)
+            d2 = substitute_prose(rng, p["d"])
+            if d2 is not None:
+                q = dict(p, d=d2, d_ascii=p["d"])
+                ok2, what2 = substituted_holds(q)
+                n_sub += 1
+                hist["non-ascii-prose:" + ("holds" if ok2 else "fails")] += 1
+                if not ok2:
+                    failures.append({"case": q, "what": what2, "class": None})
     # (iii) prose that announces nothing is never altered
     m = impl()
     n3 = 0
@@ -142,10 +185,12 @@ def oracle(rng, tier):
                 failures.append({"case": {"line": l, "emit": emit, "fn": "set_default_doc"},
                                  "what": "set_default_doc altered prose without default: %r" % (got,), "class": None})
     return {
-        "evaluations": len(pts) + n3,
+        "evaluations": len(pts) + n3 + n_sub,
         "distinct_nontrivial": len(seen),
         "rule": "points (announce phrase, prose, value, declared type) from gen_text strata; non-trivial = distinct point "
-                "inside the proved region (guard_C17) with non-empty prose; plus no-announcement lines x flag grid",
+                "inside the proved region (guard_C17) with non-empty prose; plus no-announcement lines x flag grid; plus in-guard "
+                "points on which the property holds re-evaluated with letters of the prose replaced char-for-char by non-ASCII "
+                "letters (metamorphic: same sentence, same default, removal returns the substituted prose)",
         "failures": failures,
         "model_impl_property_disagreements": disagree,
         "histogram": dict(hist),
